@@ -572,6 +572,12 @@ func (c *Chain) BuildBlock(slot uint64, plan Plan) (*Built, error) {
 		pl.ReceiptsRoot = refspec.Root{0x52, byte(slot)}
 		pl.BaseFeePerGas[0] = 7
 		pl.BlockHash = refspec.Root{0xb1, byte(slot), byte(slot >> 8), byte(c.Rng.Uint32())}
+		if fork == refspec.Bellatrix && !sp.IsMergeTransitionComplete(pre) && c.Rng.IntN(2) == 0 {
+			// nothing in the consensus rules looks at the block hash itself (that is the engine's business):
+			// a merge transition payload whose hash field is zero is still a non-empty payload
+			pl.BlockHash = refspec.Root{}
+			ops["merge_transition_block_with_zero_block_hash"]++
+		}
 		for i := 0; i < c.Rng.IntN(3); i++ {
 			tx := make([]byte, 1+c.Rng.IntN(40))
 			for j := range tx {
